@@ -90,6 +90,9 @@ Proof. intros s. repeat split; auto using SrcScript.src_is_p2sh, SrcScript.src_i
 Theorem C16_from_script_from_source : forall s : bytes,
   from_script s = Val (SrcAddr.payload_of (SrcAddr.src_from_script s)).
 Proof. exact SrcAddr.src_from_script_is_model. Qed.
+Theorem C16_from_script_roundtrip_from_source : forall p s r, SrcAddr.src_from_script s = Some r ->
+  script_pubkey p (match SrcAddr.payload_of (Some r) with Some a => a | None => PubkeyHash [] end) = Val s.
+Proof. exact SrcAddr.src_from_script_roundtrip. Qed.
 Theorem C16_templates : forall s : bytes,
   (is_p2pkh s = true <-> exists h, length h = 20%nat /\ s = x76 :: xa9 :: x14 :: h ++ [x88; xac]) /\
   (is_p2sh s = true <-> exists h, length h = 20%nat /\ s = xa9 :: x14 :: h ++ [x87]) /\
@@ -198,3 +201,4 @@ Print Assumptions C16_from_script_roundtrip.
 Print Assumptions C16_from_script_text.
 Check (C16_from_script_from_source : forall s : bytes, from_script s = Val (SrcAddr.payload_of (SrcAddr.src_from_script s))).
 Print Assumptions C16_from_script_from_source.
+Print Assumptions C16_from_script_roundtrip_from_source.
